@@ -5,6 +5,7 @@ from mirq.depend import Dependence
 from mirq.origin import Origins, show, walk, dominating_guards, lit_truth, decisions, subst, mk_bin
 from mirq.pat import match, strip_casts, find
 from rules.c11 import RAW_BITS, LOADSTORE, order_param, short_raw, ALT, _eval_int
+from mirq.paths import Paths, Unsupported, check_guarded, show_fact, show_eff, UNIT, strip_casts as pstrip
 
 FB = "embedded_graphics::framebuffer::Framebuffer"
 ORDERS = {"LittleEndianMsb0": "le", "BigEndianLsb0": "be"}
@@ -118,6 +119,7 @@ def run(ctx, rep):
         if impl.get("trait") == LOADSTORE:
             load_dep[short_raw(impl)] = dep.fn_uses(prog.fns[impl["fns"]["load"]], order_param(impl))
 
+    P_ = Paths(prog)
     sps = [f for f in prog.fns.values() if f.name == "set_pixel" and f.impl and prog.impls[f.impl]["self_ty"].get("adt") == FB]
     rep.floor("R10", "set_pixel impls", len(sps), 10)
     seen_raw = {}
@@ -141,65 +143,7 @@ def run(ctx, rep):
                   % (raw, "depends on" if rdep else "ignores", "depends on it" if wdep else "is parametric in it"),
                   at=f.span, fn=f.path, detail={"writer_uses": sorted(dep.uses[f.id]), "specialised_on_order": specialised})
         rep.sample({"rule": "R10.1", "impl": key, "reader_depends_on_order": rdep, "writer_depends_on_order": wdep})
-        org = Origins(f)
-        # R10.2 endianness pairing
-        if bits > 8:
-            ends = set()
-            for bi in org.cfg.live_blocks():
-                t = f.body["blocks"][bi]["t"]
-                if t and t["k"] == "call" and t["f"].get("name") in ("to_le_bytes", "to_be_bytes", "to_ne_bytes", "swap_bytes"):
-                    ends.add(t["f"]["name"])
-            if specialised:
-                want = {"to_%s_bytes" % ORDERS.get(oname, "?")}
-                rep.check(ends == want, "R10.2", key, "set_pixel for %s must serialise with %s (load decodes %s); found %s" % (oname, sorted(want), ORDERS.get(oname), sorted(ends)), at=f.span, fn=f.path)
-            else:
-                rep.fail("R10.2", key, "multi-byte set_pixel generic in the order: endianness selection not recognised", status="undecided", at=f.span, fn=f.path)
-        # R10.3 guards + R10.6 layout for each data write
-        ws = data_writes(f, org, DATA)
-        rep.check(len(ws) >= 1, "R10.3", key + ":has-write", "no write into self.data found in set_pixel", status="undecided", at=f.span, fn=f.path)
-        px = ("field", ("param", 2, "p"), 0)
-        py = ("field", ("param", 2, "p"), 1)
-        for wi, (bi, kind, itree, sp) in enumerate(ws):
-            guards = dominating_guards(f, org, bi)
-            facts = coord_facts(guards, px, py)
-            missing = [x for x in ("x>=0", "x<WIDTH", "y>=0", "y<HEIGHT") if x not in facts]
-            rep.check(not missing, "R10.3", "%s:write%d" % (key, wi),
-                      "write into self.data is not guarded by %s (a point outside WIDTH x HEIGHT could modify a byte)" % ", ".join(missing),
-                      at=sp, fn=f.path, detail={"guards": [(show(d), l) for d, l in guards][:8]})
-            # index form
-            if kind == "assign":
-                idx = itree
-            elif kind.startswith("call:index_mut") or kind.startswith("call:copy_from_slice") or kind.startswith("call:get_mut"):
-                # range start of the slice taken from self.data
-                rs = find(org.term_args(bi)[1] if kind.startswith("call:index_mut") and len(org.term_args(bi)) > 1 else itree, ("agg", "*Range::Range", ("?s", "?e")))
-                idx = rs[0][1]["?s"] if rs else None
-                if rs:
-                    s_, e_ = fold(rs[0][1]["?s"]), fold(rs[0][1]["?e"])
-                    rep.check(e_ == fold(mk_bin("Add", rs[0][1]["?s"], C(bits // 8))), "R10.6", "%s:write%d:len" % (key, wi),
-                              "the written slice must be exactly %d bytes long" % (bits // 8), at=sp, fn=f.path, detail=show(e_))
-            else:
-                idx = None
-            if idx is None:
-                rep.fail("R10.6", "%s:write%d:index" % (key, wi), "cannot derive the byte index of the write (%s)" % kind, status="undecided", at=sp, fn=f.path)
-                continue
-            tf = lambda e: ("field", ("variant", ("call", "*::try_from", "_", (e,)), "Ok"), 0)
-            got = fold(idx)
-            # x / y may be the try_from payload or `p.x as usize` (cast stripped by fold)
-            def norm(n):
-                for e, name in ((px, "X"), (py, "Y")):
-                    if n == e:
-                        return ("const", name)
-                    if match(n, tf(e)) is not None or match(n, tf(("const", name))) is not None:
-                        return ("const", name)
-                return None
-            got = fold(subst(got, norm))
-            want = fold(expected_index(bits, C("X"), C("Y")))
-            rep.check(got == want, "R10.6", "%s:write%d:index" % (key, wi),
-                      "byte index %s differs from the layout ImageRaw reads (%s): rows are WIDTH pixels padded to whole bytes" % (show(got), show(want)),
-                      at=sp, fn=f.path, detail={"got": show(got), "want": show(want)}, status="undecided" if got[0] != "bin" else "refuted")
-        # sub-byte bit index table (documented order) -- only meaningful once the writer follows the order
-        if bits < 8:
-            check_subbyte_bits(f, org, rep, key, bits, order, specialised)
+        set_pixel_paths(prog, rep, P_, f, key, bits, oname, specialised, DATA)
 
     for raw, n in RAW_BITS.items():
         os_ = seen_raw.get(raw, [])
@@ -213,70 +157,196 @@ def run(ctx, rep):
     witness.check(rep, "W10", ["W10TooSmall", "W10Exact", "W10Oversized", "W10SubByteTooSmall", "W10SubByteExact"])
 
 
-def check_subbyte_bits(f, org, rep, key, bits, order, specialised):
-    """The shift applied to the colour bits, per branch of IS_ALTERNATE_ORDER, must be the documented
-    position: (ppb-1 - x%ppb)*bpp for LittleEndianMsb0, (x%ppb)*bpp for BigEndianLsb0."""
-    ppb = 8 // bits
-    # find `Shl(value, shift)` feeding the stored byte: look at every Shl in the body
-    shifts = {}
-    blocks = f.body["blocks"]
-    for bi in sorted(org.cfg.live_blocks()):
-        for si, s in enumerate(blocks[bi]["s"]):
-            if s["k"] == "assign" and s["rv"]["k"] == "bin" and s["rv"]["op"] in ("Shl", "ShlUnchecked"):
-                sh = org.operand(s["rv"]["b"], bi, si)
-                br = "uncond"
-                for d, lit in dominating_guards(f, org, bi):
-                    if d[0] == "const" and isinstance(d[1], str) and d[1].startswith(ALT):
-                        br = lit_truth(lit)
-                shifts.setdefault(br, set()).add(fold(sh))
+def set_pixel_paths(prog, rep, P_, f, key, bits, oname, specialised, DATA):
+    """R10.2 / R10.3 / R10.6 on the path summaries of one set_pixel: which paths write, under which conditions, where
+    and what."""
+    try:
+        summs = P_.of(f)
+    except Unsupported as e:
+        rep.fail("R10.3", key + ":paths", "cannot summarise set_pixel: %s" % e, status="undecided", at=f.span, fn=f.path)
+        return
     px = ("field", ("param", 2, "p"), 0)
-    tfx = ("field", ("variant", ("call", "*::try_from", "_", (px,)), "Ok"), 0)
+    py = ("field", ("param", 2, "p"), 1)
+    self_data = ("field", ("param", 1, "self"), DATA)
+    Z = C(0)
+    tfp = lambda e: ("payload", ("call", "core::convert::num::ptr_try_from_impls::<impl core::convert::TryFrom<i32> for usize>::try_from", (), (e,)))
 
-    def ev(tree, x):
+    def is_tf(t, e):
+        return t[0] == "call" and t[1].endswith("::try_from") and len(t[3]) == 1 and t[3][0] == e
+
+    def lower(e):
+        # 0 <= e: tested directly, or established by usize::try_from(e) being Ok, or by comparing `e as unsigned`
+        def g(facts):
+            for fct in facts:
+                if fct[0] == "variant" and is_tf(fct[1], e) and fct[2] == ("Ok",):
+                    return True
+                if fct[0] == "le" and fct[1] == Z and pstrip(fct[2]) == e:
+                    return True
+                if fct[0] == "lt" and fct[1][0] == "cast" and fct[1][1] == e and fct[1][2] in ("u32", "usize", "u64", "u16"):
+                    return True
+                if fct[0] == "lt" and fct[1][0] == "payload" and is_tf(fct[1][1], e):
+                    return True
+            return False
+        return g
+
+    def lower_violated(e):
+        def g(facts):
+            for fct in facts:
+                if fct[0] == "variant" and is_tf(fct[1], e) and fct[2] == ("Err",):
+                    return True
+                if fct[0] == "lt" and pstrip(fct[1]) == e and fct[2] == Z:
+                    return True
+            return False
+        return g
+
+    def norm(t):
+        """coordinates as X / Y: the try_from payload or the (cast) field"""
         def r(n):
-            if n == px or match(n, tfx) is not None or match(n, ("field", ("variant", ("call", "*::try_from", "_", (("const", x),)), "Ok"), 0)) is not None:
-                return ("const", x)
-            if n[0] == "phi":
-                return None
+            for e, name in ((px, "X"), (py, "Y")):
+                if n == e or (n[0] == "payload" and (is_tf(n[1], e) or is_tf(n[1], C(name)))):
+                    return C(name)
             return None
-        t2 = fold(subst(tree, r))
-        return _eval_int(t2, {}) if t2[0] != "phi" else None
-    ok = True
-    why = ""
-    for br, trees in shifts.items():
-        for tree in trees:
-            if tree[0] == "phi":
-                # a phi of per-order alternatives computed before the shift: resolved by the caller's fix shape
-                alts = tree[1]
-            else:
-                alts = (tree,)
+        return fold(subst(t, r))
+
+    def upper(e, lim):
+        def g(facts):
+            for fct in facts:
+                if fct[0] == "lt" and norm(fct[1]) == norm(e) and fold(fct[2]) == C(lim):
+                    return True
+            return False
+        return g
+
+    def upper_violated(e, lim):
+        def g(facts):
+            for fct in facts:
+                if fct[0] == "le" and fold(fct[1]) == C(lim) and norm(fct[2]) == norm(e):
+                    return True
+            return False
+        return g
+    needs = {"x>=0": (lower(px), lower_violated(px)), "y>=0": (lower(py), lower_violated(py)),
+             "x<WIDTH": (upper(px, "WIDTH"), upper_violated(px, "WIDTH")), "y<HEIGHT": (upper(py, "HEIGHT"), upper_violated(py, "HEIGHT"))}
+    acting = [sm for sm in summs if sm.effects]
+    rep.check(len(acting) >= 1, "R10.3", key + ":has-write", "no write into self.data found in set_pixel", status="undecided", at=f.span, fn=f.path)
+    missing = sorted({k for sm in acting for k, (h, v) in needs.items() if not h(sm.facts)})
+    rep.check(not missing, "R10.3", key + ":write0", "write into self.data is not guarded by %s (a point outside WIDTH x HEIGHT could modify a byte)" % ", ".join(missing), at=f.span, fn=f.path)
+    idle = [sm for sm in summs if not sm.effects]
+    unjust = [sm for sm in idle if not any(v(sm.facts) for h, v in needs.values())]
+    bad = ["nothing is written although %s" % ("; ".join(show_fact(x) for x in sm.facts) or "nothing was tested") for sm in unjust]
+    bad += ["set_pixel returns %s" % show(sm.ret, maxd=3) for sm in summs if sm.ret != UNIT]
+    rep.check(not bad, "R10.3", key + ":writes-inside", "set_pixel must write for every point inside WIDTH x HEIGHT (pixel() returns the colour most recently written): " + "; ".join(bad[:2]), at=f.span, fn=f.path)
+    ppb = 8 // bits if bits < 8 else 1
+    for wi, sm in enumerate(acting):
+        wkey = "%s:write%d" % (key, 0)
+        alt = None
+        for fct in sm.facts:
+            if fct[0] in ("true", "false") and fct[1][0] == "const" and isinstance(fct[1][1], str) and fct[1][1].startswith(ALT):
+                alt = fct[0] == "true"
+        if len(sm.effects) != 1:
+            rep.fail("R10.6", wkey + ":index", "a path of set_pixel has %d effects, expected one store: %s" % (len(sm.effects), "; ".join(show_eff(e) for e in sm.effects[:3])), status="undecided", at=f.span, fn=f.path)
+            continue
+        e = sm.effects[0]
+        idx = val = None
+        if e[0] == "write" and e[1][0] == "index" and e[1][1] == self_data:
+            idx, val = e[1][2], e[2]
+        elif e[0] == "call" and e[1][1].endswith("copy_from_slice") and len(e[1][3]) == 2:
+            dst, val = e[1][3]
+            base = dst
+            while base[0] in ("payload",):
+                base = base[1]
+            rng = base[3][1] if base[0] == "call" and base[1].split("::")[-1] in ("index_mut", "get_mut") and len(base[3]) == 2 and base[3][0] == self_data else None
+            if rng is not None and rng[0] == "agg" and rng[1].endswith("Range::Range"):
+                idx = rng[2][0]
+                s_, e_ = norm(rng[2][0]), norm(rng[2][1])
+                rep.check(e_ == fold(mk_bin("Add", s_, C(bits // 8))), "R10.6", wkey + ":len", "the written slice must be exactly %d bytes long" % (bits // 8), at=f.span, fn=f.path, detail=show(e_))
+        if idx is None:
+            rep.fail("R10.6", wkey + ":index", "cannot derive the byte index of the write (%s)" % show_eff(e), status="undecided", at=f.span, fn=f.path)
+            continue
+        got = norm(idx)
+        want = fold(expected_index(bits, C("X"), C("Y")))
+        same = got == want
+        if not same:
+            # compare as functions on a grid of widths and coordinates (operand order, factoring)
+            same = _same_fn(got, want, bits)
+        rep.check(same, "R10.6", wkey + ":index",
+                  "byte index %s differs from the layout ImageRaw reads (%s): rows are WIDTH pixels padded to whole bytes" % (show(got), show(want)),
+                  at=f.span, fn=f.path, detail={"got": show(got), "want": show(want)}, status="undecided" if same is None else "refuted")
+        if bits > 8:
+            ends = sorted({n[1].split("::")[-1] for n in walk(val) if n[0] == "call" and n[1].split("::")[-1] in ("to_le_bytes", "to_be_bytes", "to_ne_bytes", "swap_bytes")})
+            order = ORDERS.get(oname) if specialised else ({True: "be", False: "le"}.get(alt))
+            want_e = ["to_%s_bytes" % order] if order else None
+            rep.check(want_e is not None and ends == want_e, "R10.2", key, "set_pixel for %s must serialise with %s (load decodes %s); found %s" % (oname, want_e, order, ends),
+                      at=f.span, fn=f.path, status="refuted" if want_e else "undecided")
+        elif bits < 8:
+            # the colour bits: Shl(into_inner(..), shift); shift per data order is the documented position
+            shs = [n for n in walk(val) if n[0] == "bin" and n[1] == "Shl" and any(x[0] == "call" and x[1].endswith("into_inner") for x in walk(n[2]))]
+            if len(shs) != 1:
+                rep.fail("R10.2", key + ":bit-position", "no single shift of the colour bits found in the stored value %s" % show(val, maxd=4), status="undecided", at=f.span, fn=f.path)
+                continue
+            ok, why = True, ""
             for x in range(2 * ppb):
-                vals = set()
                 try:
-                    for a in alts:
-                        vals.add(ev(a, x))
-                except Exception as e:
-                    ok = False
-                    why = "cannot evaluate shift %s" % show(tree)
+                    v = _eval_int(fold(subst(norm(shs[0][3]), lambda n: C(x) if n == C("X") else None)), {})
+                except Exception as ex:
+                    ok, why = None, "cannot evaluate shift %s" % show(shs[0][3], maxd=5)
                     break
                 msb = (ppb - 1 - x % ppb) * bits
                 lsb = (x % ppb) * bits
-                if br == "uncond" and len(alts) == 1:
-                    want = {msb} if True else None
-                    # unconditional shift: only correct if both orders agree (they do not for ppb>1)
-                    if vals != {msb} and vals != {lsb}:
-                        ok, why = False, "shift %s for x=%d is neither documented position" % (sorted(vals), x)
-                elif br is True:
-                    if vals != {lsb}:
-                        ok, why = False, "under IS_ALTERNATE_ORDER pixel x=%d must sit at bit %d, found %s" % (x, lsb, sorted(vals))
-                elif br is False:
-                    if vals != {msb}:
-                        ok, why = False, "for LittleEndianMsb0 pixel x=%d must sit at bit %d, found %s" % (x, msb, sorted(vals))
-                else:
-                    if vals != {msb, lsb}:
-                        ok, why = False, "shift alternatives %s for x=%d are not the two documented positions" % (sorted(vals), x)
-    rep.check(ok and bool(shifts), "R10.2", key + ":bit-position", why or "no shift of the colour bits found", at=f.span, fn=f.path,
-              detail={str(k): [show(t) for t in v] for k, v in shifts.items()}, status="undecided" if not shifts else "refuted")
+                o = ORDERS.get(oname) if specialised else ({True: "be", False: "le"}.get(alt))
+                if o is None:
+                    if msb != lsb:
+                        ok, why = False, "the bit position does not depend on the data order"
+                elif v != (lsb if o == "be" else msb):
+                    ok, why = False, "%s pixel x=%d must sit at bit %d, found %s" % ("under IS_ALTERNATE_ORDER" if o == "be" else "for LittleEndianMsb0", x, lsb if o == "be" else msb, v)
+            rep.check(bool(ok), "R10.2", key + ":bit-position", why, at=f.span, fn=f.path, status="undecided" if ok is None else "refuted")
+            # read-modify-write: the other pixels of the byte are kept, the pixel's bits replaced
+            rmw = _rmw_ok(val, e[1], shs[0], bits)
+            rep.check(rmw is True, "R10.2", key + ":read-modify-write", "the stored byte must be (old & !(mask << shift)) | (value << shift) with mask = 2^bpp - 1 and old = the same byte; found %s" % show(val, maxd=5),
+                      at=f.span, fn=f.path, status="undecided" if rmw is None else "refuted")
+
+
+def _same_fn(a, b, bits):
+    """Do two index expressions over X, Y, WIDTH agree on a grid?  (None: cannot evaluate.)  Integer arithmetic
+    with the same truncating divisions; used only to compare spellings of the layout formula."""
+    try:
+        for W in (1, 2, 3, 5, 7, 8, 9, 13, 16, 17, 31, 33, 64, 100):
+            for X in sorted({0, 1, 2, 3, 7, 8, 9, W - 1, W // 2}):
+                if X < 0 or X >= W:
+                    continue
+                for Y in (0, 1, 2, 5, 63):
+                    H = 64
+                    env = {"X": X, "Y": Y, "WIDTH": W, "HEIGHT": H, "N": ((W * bits + 7) // 8) * H + 3}   # N: an oversized buffer
+                    f = lambda t: subst(t, lambda n: C(env[n[1]]) if n[0] == "const" and n[1] in env else None)
+                    if _eval_int(fold(f(a)), {}) != _eval_int(fold(f(b)), {}):
+                        return False
+        return True
+    except Exception:
+        return None
+
+
+def _rmw_ok(val, lvalue, shl, bits):
+    """val == BitOr(BitAnd(old, Not(Shl(mask, s))), Shl(v, s)), any operand order; mask evaluates to 2^bits - 1"""
+    if val[0] != "bin" or val[1] != "BitOr":
+        return None
+    parts = [val[2], val[3]]
+    if shl not in parts:
+        return None
+    other = parts[1] if parts[0] == shl else parts[0]
+    if other[0] != "bin" or other[1] != "BitAnd":
+        return None
+    ops = [other[2], other[3]]
+    old = [o for o in ops if o == lvalue]
+    nots = [o for o in ops if o[0] == "un" and o[1] == "Not"]
+    if len(old) != 1 or len(nots) != 1:
+        return False if len(nots) == 1 else None
+    m = nots[0][2]
+    if m[0] != "bin" or m[1] != "Shl" or m[3] != shl[3]:
+        return False
+    try:
+        mv = _eval_int(fold(subst(m[2], lambda n: C(2 ** n[3][1][1]) if n[0] == "call" and n[1].endswith("::pow") and n[3][0] == C(2) and n[3][1][0] == "const" else
+                                 (n[1] if n[0] == "cast" else None))), {})
+    except Exception:
+        return None
+    return mv == (1 << bits) - 1
 
 
 def check_as_image(prog, rep, DATA):
